@@ -128,6 +128,18 @@ fn ex_lower_prefix(l: &str) -> Option<Span> {
     Some((0, j))
 }
 
+/// `^p:(?P<value>[a-z]+)$|^[a-z]+$` — the `value` group only takes part in the first branch: a line matching
+/// through the second branch is keyed by its whole match.
+fn ex_optional_group(l: &str) -> Option<Span> {
+    let lower = |s: &str| !s.is_empty() && s.bytes().all(|c| c.is_ascii_lowercase());
+    if let Some(rest) = l.strip_prefix("p:")
+        && lower(rest)
+    {
+        return Some((2, l.len()));
+    }
+    if lower(l) { Some((0, l.len())) } else { None }
+}
+
 pub const KEY_PATS: &[KeyPat] = &[
     KeyPat { re: "id:(?P<value>[0-9]+)", extract: ex_id_group, has_value_group: true },
     KeyPat { re: "id:[0-9]+", extract: ex_id_whole, has_value_group: false },
@@ -139,6 +151,7 @@ pub const KEY_PATS: &[KeyPat] = &[
     // the same `value` group in the regex crate's other spelling of a named group
     KeyPat { re: "id:(?<value>[0-9]+)", extract: ex_id_group, has_value_group: true },
     KeyPat { re: "^k(?<value>[a-z]*)", extract: ex_k_group_star, has_value_group: true },
+    KeyPat { re: "^p:(?P<value>[a-z]+)$|^[a-z]+$", extract: ex_optional_group, has_value_group: true },
 ];
 
 pub fn key_pat(re: &str) -> Option<&'static KeyPat> {
